@@ -402,6 +402,30 @@ def scene_vla(c):
     c.labels.add("vla")
 
 
+def scene_aligned_copy(c):
+    """Whole-object copies of aggregates whose alignment exceeds the widest load/store (assignment, through pointers, array
+    elements, conditional operator); no by-value calls (avoid(alignas-member): the IL type descriptors are a recorded finding)."""
+    d = c.draw
+    f = c.uid("alc")
+    al = d(st.sampled_from([16, 16, 32, 64]))
+    mems = ["_Alignas(%d) %s a0;" % (al, d(st.sampled_from(["long", "char", "int", "double"])))]
+    for i in range(1, d(st.integers(2, 6))):
+        mems.append("%s%s a%d%s;" % ("_Alignas(%d) " % al if d(st.integers(0, 4)) == 0 else "", d(st.sampled_from(["long", "char", "int", "double", "short"])), i,
+                                     "[%d]" % d(st.integers(1, 5)) if d(st.integers(0, 2)) == 0 else ""))
+    n = len(mems)
+    kind = d(st.sampled_from(["struct", "struct", "union"]))
+    body = ["%s %s_t x, y, z[2], *p = &z[1];" % (kind, f),
+            "for (unsigned i = 0; i < sizeof x; i++) ((unsigned char *)&x)[i] = (unsigned char)(i * 7 + 3);",
+            "__builtin_memset_free: ;"[:0] + "for (unsigned i = 0; i < sizeof y; i++) { ((unsigned char *)&y)[i] = 0x55; ((unsigned char *)z)[i] = 0x66; ((unsigned char *)z)[i + sizeof y] = 0x77; }",
+            "y = x; chk_bytes(&y, sizeof y);", "*p = y; chk_bytes(z, sizeof z);", "z[0] = *p; chk_bytes(z, sizeof z);",
+            "x.a0 = 0; y = n ? x : z[1]; chk_bytes(&y, sizeof y); y = (z[0], x); chk_bytes(&y, sizeof y);",
+            "{ %s %s_t w = *p, v = { 0 }; chk_bytes(&w, sizeof w); v = w; chk_bytes(&v, sizeof v); }" % (kind, f),
+            "chk_u64(sizeof x); chk_u64(_Alignof(%s %s_t)); chk_u64((unsigned long)&x %% %du);" % (kind, f, al)]
+    c.funcs.append("%s %s_t { %s };\nstatic void %s(int n) {\n\t%s\n}" % (kind, f, " ".join(mems), f, "\n\t".join(b for b in body if b)))
+    c.calls.append("%s(%d);" % (f, d(st.integers(0, 1))))
+    c.labels.add("overaligned-copy")
+
+
 def scene_anon(c):
     """Members of anonymous structs and unions are members of the enclosing type; members declared after an anonymous
     member (at any depth, also inside further anonymous members) keep their own offsets."""
@@ -544,7 +568,7 @@ def scene_float(c):
 
 
 SCENES = [scene_struct_copy, scene_struct_copy, scene_init, scene_init, scene_control, scene_calls, scene_calls,
-          scene_vla, scene_pointers, scene_statics, scene_arith_loop, scene_float, scene_alloca, scene_anon]
+          scene_vla, scene_pointers, scene_statics, scene_arith_loop, scene_float, scene_alloca, scene_anon, scene_aligned_copy]
 
 
 @st.composite
